@@ -3,6 +3,23 @@ impl core::convert::From<SystemTimeError> for anyhow::Error {
     #[verifier::external_body]
     fn from(e: SystemTimeError) -> anyhow::Error { unimplemented!() }
 }
+/// protocol/vmess/header.rs RequestOption::{values, from_mask, get_mask} (iterator adapters, R9): option list <-> bit mask.  ASSUMED contracts.
+/// V2Fly VMess: option bits S=1 (chunk stream), R=2 (connection reuse), M=4 (chunk masking), P=8 (global padding), A=16 (authenticated length)
+spec fn opt_bit(o: RequestOption) -> u8 { match o { RequestOption::ChunkStream => 1, RequestOption::ConnectionReuse => 2, RequestOption::ChunkMasking => 4, RequestOption::GlobalPadding => 8, RequestOption::AuthenticatedLength => 16 } }
+//#C03
+proof fn lemma_opt_bits(o: RequestOption) ensures opt_bit(o) == o as u8 {}
+spec fn mask_of(s: Seq<RequestOption>) -> u8 decreases s.len() { if s.len() == 0 { 0u8 } else { mask_of(s.drop_last()) | opt_bit(s.last()) } }
+impl RequestOption {
+    #[verifier::external_body]
+    fn from_mask(mask: u8) -> (r: Vec<RequestOption>)
+        ensures forall|o: RequestOption| r@.contains(o) == (opt_bit(o) & mask != 0)
+    { unimplemented!() }
+    #[verifier::external_body]
+    fn get_mask(options: &[RequestOption]) -> (r: u8)
+        ensures r == mask_of(options@)
+    { unimplemented!() }
+}
+spec fn seg(s: Seq<u8>, a: int, n: int) -> Seq<u8> { s.subrange(a, a + n) }
 proof fn lemma_path3(p: Seq<&[u8]>, a: Seq<u8>, b: Seq<u8>, c: Seq<u8>)
     requires p.len() == 3, p[0]@ == a, p[1]@ == b, p[2]@ == c
     ensures path_view(p) == seq![a, b, c]
@@ -25,6 +42,9 @@ fn fnv__fnv1a32(data: &[u8]) -> (r: u32)
         proof { assert(data@.take(data@.len() as int) =~= data@); }
         hash
     }
+
+//@@ octo-squirrel/src/protocol/vmess.rs:13-13  const VERSION  sha=ed005120139ab396
+pub const vmessp__VERSION: u8 = 1;
 
 //@@ octo-squirrel/src/protocol/vmess/aead/kdf.rs:6-6  const SALT_LENGTH_KEY  sha=342c6667ca5461c2
 #[verifier::external_body] exec const kdf__SALT_LENGTH_KEY: &'static [u8] ensures kdf__SALT_LENGTH_KEY@ =~= seq![86u8, 77u8, 101u8, 115u8, 115u8, 32u8, 72u8, 101u8, 97u8, 100u8, 101u8, 114u8, 32u8, 65u8, 69u8, 65u8, 68u8, 32u8, 75u8, 101u8, 121u8, 95u8, 76u8, 101u8, 110u8, 103u8, 116u8, 104u8] { b"VMess Header AEAD Key_Length" }
@@ -199,3 +219,479 @@ fn encrypt__open_header(key: &[u8], src: &mut BytesMut) -> (r: Result<Option<Vec
     cursor.into_inner().advance(pos as usize);
     Ok(Some(header_bytes))
 }
+
+//@@ octo-squirrel-server/src/server/template.rs:39-43  mod message / enum InboundIn  sha=900b92278fa20e17
+pub enum InboundIn {
+        ConnectTcp(BytesMut, Address),
+        RelayTcp(BytesMut),
+        RelayUdp(BytesMut, Address),
+    }
+
+//@@ octo-squirrel-server/src/server/template.rs:71-74  mod message / enum OutboundIn  sha=8f4f430e0a7dd220
+pub enum OutboundIn {
+        Tcp(BytesMut),
+        Udp((BytesMut, SocketAddr)),
+    }
+
+//@@ octo-squirrel-server/src/server/template.rs:76-83  mod message / impl From for BytesMut  sha=836a0617d15043fc
+impl vstd::std_specs::convert::FromSpecImpl<OutboundIn> for BytesMut {
+    open spec fn obeys_from_spec() -> bool { true }
+    open spec fn from_spec(v: OutboundIn) -> Self { match v { OutboundIn::Tcp(b) => b, OutboundIn::Udp((b, _)) => b } }
+}
+impl From<OutboundIn> for BytesMut {
+        fn from(value: OutboundIn) -> Self {
+            match value {
+                OutboundIn::Tcp(bytes) => bytes,
+                OutboundIn::Udp((bytes, _)) => bytes,
+            }
+        }
+    }
+
+//@@ octo-squirrel-server/src/server/vmess.rs:37-40  enum DecodeState  sha=c97ebb9f52444016
+enum vsrv__DecodeState {
+    Init,
+    Ready(RequestHeader, ServerSession, Box<AEADBodyCodec>),
+}
+
+//@@ octo-squirrel-server/src/server/vmess.rs:42-45  enum EncodeState  sha=23b179cf3462b1cd
+enum vsrv__EncodeState {
+    Init,
+    Ready(Box<AEADBodyCodec>),
+}
+
+//@@ octo-squirrel-server/src/server/vmess.rs:47-53  struct ServerAeadCodec  sha=9184cf7c0e48a02e
+pub struct ServerAeadCodec {
+    keys: Vec<[u8; 16]>,
+    decode_state: vsrv__DecodeState,
+    encode_state: vsrv__EncodeState,
+    /// whether the item that carries the target address has been delivered
+    connected: bool,
+}
+
+//@@ octo-squirrel-server/src/server/vmess.rs:55-116  impl ServerAeadCodec  sha=044ec0173ea6c4ec
+impl ServerAeadCodec {
+    spec fn wf(&self) -> bool {
+        (self.decode_state matches vsrv__DecodeState::Ready(h, s, d) ==> d.wf())
+        && (self.encode_state matches vsrv__EncodeState::Ready(e) ==> e.wf())
+    }
+    fn encode(
+        item: BytesMut,
+        dst: &mut BytesMut,
+        request_header: &RequestHeader,
+        session: &mut ServerSession,
+        encoder: &mut AEADBodyCodec,
+    ) -> (r: anyhow::Result<()>)
+        requires old(encoder).wf(),
+        ensures final(encoder).wf(), final(encoder).same_static(old(encoder)), final(encoder).state == old(encoder).state, sess_same(old(session), final(session)),
+            //#C01 C02 C03
+            r is Ok ==> final(dst)@.len() >= old(dst)@.len() && final(dst)@.take(old(dst)@.len() as int) == old(dst)@,
+            //#C01 C03
+            (r is Ok && request_header.command is TCP) ==> vwire_rel(old(encoder).ecfg(old(session)), old(encoder).dynv(), item@, final(dst)@.skip(old(dst)@.len() as int)),
+            //#C02 C03
+            (r is Ok && request_header.command is UDP) ==> (final(dst)@ == old(dst)@ || vchunk_rel(old(encoder).ecfg(old(session)), old(encoder).dynv(), item@, final(dst)@.skip(old(dst)@.len() as int))),
+    {
+        match request_header.command {
+            RequestCommand::TCP => encoder.encode_payload(item, dst, session).map_err(|e| verif_err()),
+            RequestCommand::UDP => encoder.encode_packet(item, dst, session).map_err(|e| verif_err()),
+        }
+    }
+
+    fn decode_header(
+        src: &mut BytesMut,
+        header: &mut RequestHeader,
+        session: &mut ServerSession,
+        decoder: &mut AEADBodyCodec,
+    ) -> (r: anyhow::Result<Option<InboundIn>>)
+        requires old(decoder).wf(),
+        ensures final(decoder).wf(), final(decoder).same_static(old(decoder)), sess_same(old(session), final(session)), *final(header) == *old(header),
+            //#C04 C05 C01 C06 C07
+            // TCP: the plaintext of all complete chunks together with the target address, or nothing yet; an authentication failure is an error
+            old(header).command is TCP ==> match vparse(old(decoder).dcfg(old(session)), old(decoder).abs(), old(decoder).dynv(), old(src)@) {
+                None => r is Err,
+                Some(q) => final(decoder).abs() == q.st && final(decoder).dynv() == q.d && final(src)@ == q.rest
+                    && (if q.out.len() == 0 { r matches Ok(None) } else { r matches Ok(Some(InboundIn::ConnectTcp(b, a))) && b@ == q.out && a == old(header).address }),
+            },
+            //#C04 C05 C02 C06 C07
+            old(header).command is UDP ==> match vparse_pkt(old(decoder).dcfg(old(session)), old(decoder).abs(), old(decoder).dynv(), old(src)@) {
+                None => r is Err,
+                Some(q) => final(decoder).abs() == q.st && final(decoder).dynv() == q.d && final(src)@ == q.rest
+                    && match q.pkt { None => r matches Ok(None), Some(p) => r matches Ok(Some(InboundIn::RelayUdp(b, a))) && b@ == p && a == old(header).address },
+            },
+    {
+        match header.command {
+            RequestCommand::TCP => {
+                if let Some(msg) = decoder.decode_payload(src, session).map_err(|e| verif_err())? {
+                    Ok(Some(InboundIn::ConnectTcp(msg, header.address.clone())))
+                } else {
+                    Ok(None)
+                }
+            }
+            RequestCommand::UDP => {
+                if let Some(msg) = decoder.decode_packet(src, session).map_err(|e| verif_err())? {
+                    Ok(Some(InboundIn::RelayUdp(msg, header.address.clone())))
+                } else {
+                    Ok(None)
+                }
+            }
+        }
+    }
+
+    fn decode_body(
+        src: &mut BytesMut,
+        header: &mut RequestHeader,
+        session: &mut ServerSession,
+        decoder: &mut AEADBodyCodec,
+    ) -> (r: anyhow::Result<Option<InboundIn>>)
+        requires old(decoder).wf(),
+        ensures final(decoder).wf(), final(decoder).same_static(old(decoder)), sess_same(old(session), final(session)), *final(header) == *old(header),
+            //#C04 C05 C01 C06 C07
+            // TCP: the plaintext of all complete chunks, or nothing yet; an authentication failure is an error
+            old(header).command is TCP ==> match vparse(old(decoder).dcfg(old(session)), old(decoder).abs(), old(decoder).dynv(), old(src)@) {
+                None => r is Err,
+                Some(q) => final(decoder).abs() == q.st && final(decoder).dynv() == q.d && final(src)@ == q.rest
+                    && (if q.out.len() == 0 { r matches Ok(None) } else { r matches Ok(Some(InboundIn::RelayTcp(b))) && b@ == q.out }),
+            },
+            //#C04 C05 C02 C06 C07
+            old(header).command is UDP ==> match vparse_pkt(old(decoder).dcfg(old(session)), old(decoder).abs(), old(decoder).dynv(), old(src)@) {
+                None => r is Err,
+                Some(q) => final(decoder).abs() == q.st && final(decoder).dynv() == q.d && final(src)@ == q.rest
+                    && match q.pkt { None => r matches Ok(None), Some(p) => r matches Ok(Some(InboundIn::RelayUdp(b, a))) && b@ == p && a == old(header).address },
+            },
+    {
+        match header.command {
+            RequestCommand::TCP => {
+                if let Some(msg) = decoder.decode_payload(src, session).map_err(|e| verif_err())? {
+                    Ok(Some(InboundIn::RelayTcp(msg)))
+                } else {
+                    Ok(None)
+                }
+            }
+            RequestCommand::UDP => {
+                if let Some(msg) = decoder.decode_packet(src, session).map_err(|e| verif_err())? {
+                    Ok(Some(InboundIn::RelayUdp(msg, header.address.clone())))
+                } else {
+                    Ok(None)
+                }
+            }
+        }
+    }
+}
+
+//@@ octo-squirrel-server/src/server/vmess.rs:118-151  impl Encoder for ServerAeadCodec  sha=4046402ed276a29b
+impl ServerAeadCodec {
+
+    fn encode_item(&mut self, item: OutboundIn, dst: &mut BytesMut) -> (r: Result<(), anyhow::Error>)
+        requires old(self).wf(),
+        ensures final(self).wf(), final(self).keys == old(self).keys, final(self).connected == old(self).connected,
+            //#C06
+            // nothing is sent before a request was accepted
+            old(self).decode_state is Init ==> r is Err && final(dst)@ == old(dst)@,
+            //#C03 C05 C10
+            // the first reply starts with the response header sealed under keys derived from this session's response key / iv and echoes its response byte
+            (r is Ok && old(self).encode_state is Init) ==> (old(self).decode_state matches vsrv__DecodeState::Ready(h, s, d) && final(dst)@.len() >= old(dst)@.len() + 38
+                && seg(final(dst)@, old(dst)@.len() as int, 18) == aead_seal(0, vkdf(s.response_body_key@, seq![lbl_resp_len_key()]).take(16), vkdf(s.response_body_iv@, seq![lbl_resp_len_iv()]).take(12), Seq::empty(), be_bytes(4, 2))
+                && seg(final(dst)@, (old(dst)@.len() + 18) as int, 20) == aead_seal(0, vkdf(s.response_body_key@, seq![lbl_resp_key()]).take(16), vkdf(s.response_body_iv@, seq![lbl_resp_iv()]).take(12), Seq::empty(), seq![s.response_header, mask_of(h.option@), 0u8, 0u8])),
+    {
+        if let vsrv__DecodeState::Ready(ref request_header, ref mut session, _) = self.decode_state {
+            match self.encode_state {
+                vsrv__EncodeState::Init => {
+                    const NONCE_SIZE: usize = 12;
+                    let header_len_key = kdf__kdf16(&session.response_body_key, vec![kdf__SALT_AEAD_RESP_HEADER_LEN_KEY]);
+                    let cipher = Aes128Gcm::new_from_slice(&header_len_key)?;
+                    let header_len_iv: [u8; NONCE_SIZE] = kdf__kdfn(&session.response_body_iv, vec![kdf__SALT_AEAD_RESP_HEADER_LEN_IV]);
+                    let option = RequestOption::get_mask(&request_header.option);
+                    let header: [u8; 4] = [session.response_header, option, 0, 0];
+                    let ghost d0 = dst@;
+                    dst.extend_from_slice(
+                        &cipher
+                            .encrypt(&header_len_iv.into(), Payload { msg: &(header.len() as u16).v_to_be_bytes(), aad: &[] })
+                            .map_err(|e| verif_err())?,
+                    );
+                    let ghost d1 = dst@;
+                    proof { assert(header@ =~= seq![session.response_header, option, 0u8, 0u8]); assert(d1.len() == d0.len() + 18); assert(seg(d1, d0.len() as int, 18) =~= d1.skip(d0.len() as int)); }
+                    let payload_len_key = kdf__kdf16(&session.response_body_key, vec![kdf__SALT_AEAD_RESP_HEADER_PAYLOAD_KEY]);
+                    let cipher = Aes128Gcm::new_from_slice(&payload_len_key)?;
+                    let payload_len_iv: [u8; NONCE_SIZE] = kdf__kdfn(&session.response_body_iv, vec![kdf__SALT_AEAD_RESP_HEADER_PAYLOAD_IV]);
+                    dst.extend_from_slice(&cipher.encrypt(&payload_len_iv.into(), Payload { msg: &header, aad: &[] }).map_err(|e| verif_err())?);
+                    let ghost d2 = dst@;
+                    proof { assert(d2.len() == d1.len() + 20); assert(seg(d2, d0.len() as int, 18) =~= d1.skip(d0.len() as int)); assert(seg(d2, (d0.len() + 18) as int, 20) =~= d2.skip(d1.len() as int)); }
+                    let mut encoder = AEADBodyCodec::new_encoder(request_header, session)?;
+                    let res = Self::encode(item.into(), dst, request_header, session, &mut encoder);
+                    proof { if res is Ok { assert(dst@.take(d2.len() as int) == d2); assert(seg(dst@, d0.len() as int, 18) =~= seg(d2, d0.len() as int, 18)); assert(seg(dst@, (d0.len() + 18) as int, 20) =~= seg(d2, (d0.len() + 18) as int, 20)); } }
+                    self.encode_state = vsrv__EncodeState::Ready(Box::new(encoder));
+                    res
+                }
+                vsrv__EncodeState::Ready(ref mut encoder) => Self::encode(item.into(), dst, request_header, session, encoder),
+            }
+        } else {
+            return Err(verif_err())
+        }
+    }
+}
+
+//@@ octo-squirrel-server/src/server/vmess.rs:153-227  impl Decoder for ServerAeadCodec  sha=331d79b2c3150535
+impl ServerAeadCodec {
+
+    fn decode(&mut self, src: &mut BytesMut) -> (r: Result<Option<InboundIn>, anyhow::Error>)
+        requires old(self).wf(),
+        ensures final(self).wf(), final(self).keys == old(self).keys,
+            //#C04 C07
+            // waiting for the auth id / the rest of the header consumes nothing
+            (old(self).decode_state is Init && final(self).decode_state is Init && r is Ok) ==> (r matches Ok(None) && final(src)@ == old(src)@),
+            //#C04
+            (old(self).decode_state is Init && old(src)@.len() < 16) ==> (r matches Ok(None) && final(self).decode_state is Init),
+            //#C06 C10 C05
+            // the header is accepted only if the auth id opens, CRC-valid and within 120 s, under a registered user key, and the sealed header opens under that same key
+            (old(self).decode_state is Init && final(self).decode_state is Ready) ==> exists|i: int| 0 <= i < old(self).keys@.len()
+                && #[trigger] authid_ok(old(self).keys@[i]@, old(src)@.subrange(0, 16), vclock()) && vhdr_parse(old(self).keys@[i]@, old(src)@) is Done,
+            //#C06
+            // no item is delivered from a connection that has not passed that check
+            r matches Ok(Some(_)) ==> final(self).decode_state is Ready,
+            //#C01 C06
+            // the first item of a TCP flow carries the target address, later ones never do
+            (r matches Ok(Some(InboundIn::ConnectTcp(_, _)))) ==> (!(old(self).decode_state is Ready && old(self).connected) && final(self).connected),
+            (r matches Ok(Some(InboundIn::RelayTcp(_)))) ==> old(self).connected,
+    {
+        match self.decode_state {
+            vsrv__DecodeState::Init => {
+                if src.len() < 16 {
+                    return Ok(None);
+                }
+                let ghost s0 = src@;
+                let ghost aid = src@.subrange(0, 16);
+                let auth_id = &src[0..16];
+                if let Some(key) = auth_id__matching(auth_id, &self.keys)? {
+                    let ghost ki = choose|i: int| 0 <= i < self.keys@.len() && self.keys@[i] == key && authid_ok(self.keys@[i]@, aid, vclock());
+                    if let Some(header) = encrypt__open_header(&key, src)? {
+                        // version, body iv and key, response byte, options, padding/security, reserved, command .. fnv1a32
+                        if header.len() < 1 + 16 + 16 + 1 + 1 + 1 + 1 + 1 + 4 {
+                            return Err(verif_err())
+                        }
+                        proof { assert(vhdr_parse(self.keys@[ki]@, s0) is Done); }
+                        let data = header[..header.len() - 4].to_vec();
+                        let mut header = Bytes::from(header);
+                        let version = header.get_u8();
+                        let mut request_body_iv = [0; 16];
+                        header.copy_to_slice(&mut request_body_iv);
+                        let mut request_body_key = [0; 16];
+                        header.copy_to_slice(&mut request_body_key);
+                        let response_header = header.get_u8();
+                        let option = header.get_u8();
+                        let security = header.get_u8();
+                        let padding_len = security >> 4;
+                        proof { assert(padding_len <= 15) by (bit_vector) requires padding_len == security >> 4u8; }
+                        let security = SecurityType::from(security & 0xF);
+                        header.advance(1); // fixed 0
+                        let command = header.get_u8();
+                        if command != RequestCommand::TCP as u8 && command != RequestCommand::UDP as u8 {
+                            return Err(verif_err())
+                        }
+                        let command = if command == RequestCommand::TCP as u8 { RequestCommand::TCP } else { RequestCommand::UDP };
+                        let address = vaddress__read_address_port(&mut header)?;
+                        if header.remaining() < padding_len as usize + 4 {
+                            return Err(verif_err())
+                        }
+                        header.advance(padding_len as usize);
+                        let actual = header.get_u32();
+                        if fnv__fnv1a32(&data) != actual {
+                            return Err(verif_err())
+                        }
+                        let mut header = RequestHeader::new(version, command, RequestOption::from_mask(option), security, address, key);
+                        let mut session = ServerSession::new(request_body_iv, request_body_key, response_header);
+                        /*R2*/
+                        let mut decoder = AEADBodyCodec::new_decoder(&header, &mut session)?;
+                        let res = Self::decode_header(src, &mut header, &mut session, &mut decoder);
+                        self.connected = matches!(res, Ok(Some(_)));
+                        self.decode_state = vsrv__DecodeState::Ready(header, session, Box::new(decoder));
+                        res
+                    } else {
+                        Ok(None)
+                    }
+                } else {
+                    return Err(verif_err())
+                }
+            }
+            vsrv__DecodeState::Ready(ref mut header, ref mut session, ref mut decoder) => {
+                if src.is_empty() {
+                    Ok(None)
+                } else if self.connected {
+                    Self::decode_body(src, header, session, decoder)
+                } else {
+                    // the request header arrived without a complete first chunk: the first payload still carries the target
+                    let res = Self::decode_header(src, header, session, decoder);
+                    self.connected = matches!(res, Ok(Some(_)));
+                    res
+                }
+            }
+        }
+    }
+}
+
+//@@ octo-squirrel-client/src/client/vmess.rs:31-36  struct ClientAEADCodec  sha=598bf887866d7890
+pub struct ClientAEADCodec {
+    header: RequestHeader,
+    session: ClientSession,
+    body_encoder: Option<AEADBodyCodec>,
+    body_decoder: Option<AEADBodyCodec>,
+}
+
+//@@ octo-squirrel-client/src/client/vmess.rs:38-44  impl ClientAEADCodec  sha=4975ce78cabec317
+impl ClientAEADCodec {
+    spec fn wf(&self) -> bool {
+        (self.body_encoder matches Some(e) ==> e.wf()) && (self.body_decoder matches Some(d) ==> d.wf())
+    }
+}
+impl ClientAEADCodec {
+    fn new(header: RequestHeader) -> (r: Self)
+        ensures r.header == header, r.body_encoder is None, r.body_decoder is None, r.wf(),
+            //#C05 C10
+            r.session.response_body_iv@ == sha256(r.session.request_body_iv@).take(16), r.session.response_body_key@ == sha256(r.session.request_body_key@).take(16),
+    {
+        let session = ClientSession::new();
+        /*R2*/
+        Self { header, session, body_encoder: None, body_decoder: None }
+    }
+}
+
+//@@ octo-squirrel-client/src/client/vmess.rs:46-76  impl Encoder for ClientAEADCodec  sha=1dc1698ac9fdac04
+impl ClientAEADCodec {
+
+    fn encode(&mut self, item: BytesMut, dst: &mut BytesMut) -> (r: Result<(), anyhow::Error>)
+        requires old(self).wf(),
+        ensures final(self).wf(), final(self).header == old(self).header,
+            //#C14
+            // an unrepresentable target (empty or longer than 255 bytes) is refused before anything is sent
+            (old(self).body_encoder is None && !repr_v(old(self).header.address)) ==> (r is Err && final(dst)@ == old(dst)@),
+            //#C03 C01
+            r is Ok ==> final(dst)@.len() >= old(dst)@.len() && final(dst)@.take(old(dst)@.len() as int) == old(dst)@ && final(self).body_encoder is Some,
+        decreases (if old(self).body_encoder is None { 1int } else { 0int }),
+    {
+        match self.body_encoder {
+            None => {
+                let mut header = BytesMut::new();
+                header.put_u8(vmessp__VERSION);
+                header.extend_from_slice(&self.session.request_body_iv);
+                header.extend_from_slice(&self.session.request_body_key);
+                header.put_u8(self.session.response_header);
+                header.put_u8(RequestOption::get_mask(&self.header.option)); // option mask
+                let padding_len = rand::rng().random_range(0..16); // dice roll 16
+                let security = self.header.security;
+                header.put_u8((padding_len << 4) | security as u8);
+                header.put_u8(0);
+                header.put_u8(self.header.command as u8);
+                vaddress__write_address_port(&self.header.address, &mut header)?; // address
+                header.extend_from_slice(&dice::roll_bytes(padding_len as usize)); // padding
+                header.put_u32(fnv__fnv1a32(&header));
+                dst.extend_from_slice(&encrypt__seal_header(&self.header.id, header.freeze())?);
+                self.body_encoder = Some(AEADBodyCodec::new_encoder(&self.header, &mut self.session)?);
+                self.encode(item, dst)
+            }
+            Some(ref mut encoder) => match self.header.command {
+                RequestCommand::TCP => encoder.encode_payload(item, dst, &mut self.session).map_err(|e| verif_err()),
+                RequestCommand::UDP => encoder.encode_packet(item, dst, &mut self.session).map_err(|e| verif_err()),
+            },
+        }
+    }
+}
+
+//@@ octo-squirrel-client/src/client/vmess.rs:78-130  impl Decoder for ClientAEADCodec  sha=eaf96c34f8a69c5d
+impl ClientAEADCodec {
+
+    fn decode(&mut self, mut src: &mut BytesMut) -> (r: Result<Option<BytesMut>, anyhow::Error>)
+        requires old(self).wf(),
+        ensures final(self).wf(), final(self).header == old(self).header,
+            //#C04
+            old(src)@.len() == 0 ==> r matches Ok(None),
+            //#C04 C07
+            (old(self).body_decoder is None && final(self).body_decoder is None && r is Ok) ==> (r matches Ok(None) && final(src)@ == old(src)@),
+            //#C10 C05
+            // the response is accepted only if its length and header open under the keys derived from this session's response key / iv
+            // (themselves derived from the request key / iv this client sent) and it echoes this request's response byte
+            (old(self).body_decoder is None && final(self).body_decoder is Some) ==> ({
+                let k = old(self).session.response_body_key@; let iv = old(self).session.response_body_iv@; let s = old(src)@;
+                s.len() >= 18
+                && (aead_open(0, vkdf(k, seq![lbl_resp_len_key()]).take(16), vkdf(iv, seq![lbl_resp_len_iv()]).take(12), Seq::empty(), s.subrange(0, 18)) matches Some(lb)
+                    && s.len() >= 18 + be_val(lb.take(2)) + 16
+                    && (aead_open(0, vkdf(k, seq![lbl_resp_key()]).take(16), vkdf(iv, seq![lbl_resp_iv()]).take(12), Seq::empty(), s.subrange(18, (18 + be_val(lb.take(2)) + 16) as int)) matches Some(h)
+                        && h.len() >= 1 && h[0] == old(self).session.response_header)) }),
+            //#C05 C10
+            r matches Ok(Some(_)) ==> final(self).body_decoder is Some,
+            old(self).body_decoder is Some ==> final(self).body_decoder is Some,
+        decreases (if old(self).body_decoder is None { 1int } else { 0int }),
+    {
+        if src.is_empty() {
+            return Ok(None);
+        }
+        match self.body_decoder {
+            None => {
+                const NONCE_SIZE: usize = 12;
+                const TAG_SIZE: usize = 16;
+                let header_length_cipher =
+                    Aes128Gcm::new_from_slice(&kdf__kdf16(&self.session.response_body_key, vec![kdf__SALT_AEAD_RESP_HEADER_LEN_KEY]))?;
+                let ghost s0 = src@;
+                if src.remaining() < size_of::<u16>() + TAG_SIZE {
+                    return Ok(None);
+                }
+                let header_length_iv: [u8; NONCE_SIZE] = kdf__kdfn(&self.session.response_body_iv, vec![kdf__SALT_AEAD_RESP_HEADER_LEN_IV]);
+                let mut cursor = Cursor::new(src);
+                let header_length_bytes = cursor.copy_to_bytes(size_of::<u16>() + TAG_SIZE);
+                let mut header_length_bytes = BytesMut::from(&header_length_bytes[..]);
+                proof { assert(header_length_bytes@ =~= s0.subrange(0, 18)); }
+                header_length_cipher.decrypt_in_place(&header_length_iv.into(), &[], &mut header_length_bytes).map_err(|e| verif_err())?;
+                let ghost lb = header_length_bytes@;
+                proof { lemma_be_val_bound(lb.take(2)); lemma_pow256_vals(); }
+                let header_length = header_length_bytes.get_u16() as usize;
+                if cursor.remaining() < header_length + TAG_SIZE {
+                    proof { axiom_cursor_dropped(&cursor); }
+                    /*R2*/
+                    return Ok(None);
+                }
+                let position = cursor.position();
+                src = cursor.into_inner();
+                src.advance(position as usize);
+                let header_cipher =
+                    Aes128Gcm::new_from_slice(&kdf__kdf16(&self.session.response_body_key, vec![kdf__SALT_AEAD_RESP_HEADER_PAYLOAD_KEY]))?;
+                let header_iv: [u8; NONCE_SIZE] = kdf__kdfn(&self.session.response_body_iv, vec![kdf__SALT_AEAD_RESP_HEADER_PAYLOAD_IV]);
+                let mut header_bytes = src.split_to(header_length + TAG_SIZE);
+                proof { assert(header_bytes@ =~= s0.subrange(18, 18 + header_length + 16)); }
+                header_cipher.decrypt_in_place(&header_iv.into(), &[], &mut header_bytes).map_err(|e| verif_err())?;
+                if header_bytes.is_empty() || self.session.response_header != header_bytes[0] {
+                    return Err(verif_err());
+                }
+                self.body_decoder = Some(AEADBodyCodec::new_decoder(&self.header, &mut self.session)?);
+                self.decode(src)
+            }
+            Some(ref mut decoder) => match self.header.command {
+                RequestCommand::TCP => decoder.decode_payload(src, &mut self.session).map_err(|e| verif_err()),
+                RequestCommand::UDP => decoder.decode_packet(src, &mut self.session).map_err(|e| verif_err()),
+            },
+        }
+    }
+}
+
+//@@ octo-squirrel-client/src/client/vmess.rs:171-173  mod udp / fn new_key  sha=d16244dc3036a560
+fn vcli__new_key(sender: SocketAddr, target: &Address) -> (r: (SocketAddr, Address))
+    ensures
+        //#C02
+        r.0 == sender, r.1 == *target,
+ {
+        (sender, target.clone())
+    }
+
+//@@ octo-squirrel-client/src/client/vmess.rs:217-219  mod udp / fn to_outbound_send  sha=ff2a9d687a871710
+fn vcli__to_outbound_send(item: DatagramPacket, verif_arg2: SocketAddr) -> (r: BytesMut)
+    ensures
+        //#C02
+        r == item.0,
+ {
+        item.0
+    }
+
+//@@ octo-squirrel-client/src/client/vmess.rs:221-223  mod udp / fn to_inbound_recv  sha=3e9de2d53df4a66b
+fn vcli__to_inbound_recv(item: BytesMut, recipient: &Address, sender: SocketAddr) -> (r: (DatagramPacket, SocketAddr))
+    ensures
+        //#C02
+        r.0.0 == item, r.0.1 == *recipient, r.1 == sender,
+ {
+        ((item, recipient.clone()), sender)
+    }
